@@ -332,13 +332,40 @@ class KernelModel:
 
     # -- classification ---------------------------------------------------
     def classify(self):
-        """Split updates into add/remove and compute the normal form of each rhs."""
+        """Split updates into add/remove and compute the signed delta of each update in normal
+        form.  `x += e`, `x = x + e` (and the `-` forms) are the same update; an assignment whose
+        right-hand side does not mention the target stays an `Assign` (cached-value class)."""
+        if getattr(self, '_classified', False):
+            return self.updates
+        self._classified = True
         for u in self.updates:
+            rhs = norm(u.rhs, u.env)
+            tgt = Poly.atom(('sym', u.target['name']))
+            op = u.op
+            delta = None
+            if op == 'AddAssign':
+                delta = rhs
+            elif op == 'SubAssign':
+                delta = -rhs
+            elif op == 'Assign':
+                d = rhs - tgt
+                if rhs.mentions(lambda a: a == ('sym', u.target['name'])) and \
+                        not d.mentions(lambda a: a == ('sym', u.target['name'])):
+                    delta = d
             is_rm = any(g == 'SOME(OLD)' or g.startswith('VALID(OLD') for g in u.guards)
-            u.poly = norm(u.rhs, u.env)
-            mentions_old = u.poly.mentions(lambda a: isinstance(a, tuple) and len(a) == 2 and
-                                           a[0] == 'sym' and str(a[1]).startswith('OLD'))
+            probe = delta if delta is not None else rhs
+            mentions_old = probe.mentions(lambda a: isinstance(a, tuple) and len(a) == 2 and
+                                          a[0] == 'sym' and str(a[1]).startswith('OLD'))
             u.block = 'remove' if (is_rm or mentions_old) else 'add'
+            if delta is not None:
+                # canonical orientation: an add-block update is `+= poly`, a remove-block
+                # update is `-= poly`
+                if u.block == 'add':
+                    u.op, u.poly = 'AddAssign', delta
+                else:
+                    u.op, u.poly = 'SubAssign', -delta
+            else:
+                u.poly = rhs
         return self.updates
 
     def accumulators(self):
